@@ -83,10 +83,25 @@ def make_element(kind, unset, attached, how):
     raise ValueError(kind)
 
 
+# optional attributes never decide whether a required one is missing: each case is run in every flavour
+FLAVOURS = {
+    'table': [{}, {'alias': 'al'}, {'note': 'n', 'header_color': '#fff'}],
+    'column': [{}, {'pk': True}, {'unique': True, 'not_null': True, 'default': 0}, {'autoinc': True, 'comment': 'c'}],
+    'index': [{}, {'pk': True}, {'unique': True, 'type': 'hash'}, {'pk': True, 'name': None}, {'comment': 'c'}],
+    'enum': [{}, {'comment': 'c'}],
+    'enum_item': [{}, {'comment': 'c'}],
+    'reference': [{}, {'name': 'fk'}, {'on_update': 'cascade', 'on_delete': 'set null'}, {'comment': 'c'}],
+}
+
+
 def elem_job(job):
-    kind, unset, attached, how = job
+    kind, unset, attached, how = job[:4]
+    flavour = job[4] if len(job) > 4 else {}
     try:
         el, parent, db = make_element(kind, unset, attached, how)
+        for a, v in flavour.items():
+            if a not in unset:
+                setattr(el, a, v)
     except Exception as e:  # noqa: BLE001
         return {'skip': 'build:' + type(e).__name__}
     r = {'self': O.run(lambda: el.sql)}
@@ -138,19 +153,20 @@ def main(tier, seed):
         for unset in dict.fromkeys(subsets):
             for attached in (False, True):
                 for how in ('ctor', 'edit'):
-                    jobs.append((kind, list(unset), attached, how))
+                    for fl in FLAVOURS[kind]:
+                        jobs.append((kind, list(unset), attached, how, fl))
     res = [elem_job(j) for j in jobs]
     model = None
     if drv is not None:
         # a database with the default renderers: `attached` only matters for the detached-table rule
         model = drv.ask_many({'op': 'dispatch', 'what': 'render', 'kind': k, 'default_cfg': True, 'handled': [], 'unset': u,
-                              'attached': att, 'sql': True} for k, u, att, _ in jobs)
+                              'attached': att, 'sql': True} for k, u, att, _, _ in jobs)
     for i, (job, r) in enumerate(zip(jobs, res)):
-        kind, unset, attached, how = job
+        kind, unset, attached, how, flavour = job
         if 'skip' in r:
             ctx.count('skip:' + r['skip'])
             continue
-        ctx.case(core.h(['elem', job]), bool(unset), sample={'kind': kind, 'unset': unset, 'attached': attached, 'how': how, 'observed': r} if i % 17 == 0 else None)
+        ctx.case(core.h(['elem', job]), bool(unset), sample={'kind': kind, 'unset': unset, 'attached': attached, 'how': how, 'flavour': flavour, 'observed': r} if i % 53 == 0 else None)
         ctx.count(f'elem:{kind}:{len(unset)}-unset')
         want = 'lib:AttributeMissingError' if unset else 'ok'
         for via, got in r.items():
